@@ -91,6 +91,9 @@ func judge(p refchess.Pos, r srch.Result, rec *evid.Rec, warmed bool) error {
 		if len(l.PV) >= 2 {
 			long = true
 		}
+		if len(l.PV) >= 44 && rec != nil {
+			rec.Class("pv_of_44_or_more_plies")
+		}
 	}
 	if lastPV != nil && r.Move.String() != lastPV[0] {
 		return fmt.Errorf("returned move %v is not the first move of the last reported variation [%s]\n%s", r.Move, strings.Join(lastPV, " "), r.Raw)
@@ -301,6 +304,30 @@ func TestC07(t *testing.T) {
 			}
 			if err := checkCase(c, rec); err != nil {
 				rec.Fail("game", err.Error(), c)
+				t.Fatalf("%v", err)
+			}
+		})
+		rec.Rapid(t, "deep_pv", evid.Pick(64, 800), func(t *rapid.T) {
+			// very deep searches on tiny endgames: variations of 40..63 plies exercise the far end of the pv buffer
+			var p refchess.Pos
+			for i := 0; i < 8; i++ {
+				p = gen.Synthetic(t)
+				n := 0
+				for _, c := range p.Sq {
+					if c != 0 {
+						n++
+					}
+				}
+				if n <= 4 && len(p.Legal()) > 0 {
+					break
+				}
+				p = refchess.MustFEN("k7/8/7K/8/8/8/P7/8 w - - 0 1")
+			}
+			p.Half = 0
+			c := Case{FEN: p.FEN(), TT: 16 << 20, Steps: []Step{{Depth: gen.Draw(t, 40, 63, "depth"), Nodes: evid.Pick(1500000, 4000000), Pick: -1}}}
+			rec.Class("deep_pv_search")
+			if err := checkCase(c, rec); err != nil {
+				rec.Fail("deep_pv", err.Error(), c)
 				t.Fatalf("%v", err)
 			}
 		})
